@@ -38,6 +38,7 @@ const (
 	reuseBase = 0       // + module*100000
 	metaBase  = 1000000 // + module*100000
 	statBase  = 2000000 // + module*100000
+	liveBase  = 3000000 // flow only
 	modSpan   = 100000
 )
 
@@ -136,6 +137,8 @@ func main() {
 			default:
 				runMeta(x, bk, id, corr)
 			}
+		case 3:
+			runLive(x, fm, id)
 		default:
 			switch mod {
 			case 0:
@@ -160,6 +163,10 @@ func main() {
 				one(fam+mod*modSpan+k, k < nCorr)
 			}
 		}
+	}
+	// live statistics (flow): six strategy pairs, designed scenarios
+	for k := 0; k < nMon/5; k++ {
+		one(liveBase+k, false)
 	}
 	x.rep.DistinctNontrivial = x.dist.N()
 	rulesh.Consts(x.rep)
